@@ -16,7 +16,7 @@ from .c01 import tol_for
 class C12(Scenario):
     prop = "C12"
     level = "fault_enumeration"
-    profiles = ["faulty-stream"]
+    profiles = ["faulty-stream", "faulty-stream", "new-bin-collection"]
     budgets = {"quick": 6000, "thorough": 100000}
     wall_caps = {"quick": 110, "thorough": 1500}
     block = 32
@@ -27,11 +27,61 @@ class C12(Scenario):
             "executed. Non-trivial: a fault fired at depth >= 1 after >= 1 successful fill. Distinct: hash of (tree "
             "shape, stream length, number of placements).")
     assumptions = ["only quantity functions fail (exception or wrong return type), as the statement says",
-                   "fan-out collections are not generated (outside the guarantee)"]
+                   "fan-out collections only as the bins of a sparse container (profile new-bin-collection): a record that fails in a bin "
+                   "that does not exist yet must leave nothing behind; once a failing record reaches an existing bin the stream is dropped"]
     expected_faults = ["q_raise", "q_badtype", "q_missing_field"]
-    expected_probes = ["fault_in_nested_child", "fault_on_new_sparse_bin", "fault_not_reached"]
+    expected_probes = ["fault_in_nested_child", "fault_on_new_sparse_bin", "fault_not_reached", "fanout_new_bin", "fanout_existing_bin"]
+
+    def _gen_collection(self, rng, tier):
+        """a sparse container whose bins are collections: a record that fails in a later child of a *new* bin must leave
+        no trace at all (the bin is not created), so the final aggregate is still the one of the surviving records - as
+        long as no failing record is routed to a bin that already exists (that is outside the guarantee)"""
+        t = rng.fork("tree")
+        kind = t.pick(["Branch", "Branch", "UntypedLabel", "Label", "Index"])
+        if kind in ("Label", "Index"):
+            leaf = t.pick(["Sum", "Average", "Minimize", "Deviate"])
+            kids = [{"p": leaf, "q": {"f": f, "kind": "lambda"}} for f in t.sample(["x", "y", "x"], t.randint(2, 3))]
+        else:
+            kids = [{"p": t.pick(["Sum", "Average", "Maximize", "Deviate", "Bag"]), "q": {"f": f, "kind": t.pick(["lambda", "lambda", "str"])}}
+                    for f in t.sample(["x", "y", "x", "y"], t.randint(2, 3))]
+            for k in kids:
+                if k["p"] == "Bag":
+                    k["range"] = "N"
+                if k["q"]["kind"] == "str":
+                    k["q"]["expr"] = k["q"]["f"]
+            if t.chance(0.3):
+                kids.insert(t.randrange(len(kids) + 1), {"p": "Count"})
+        coll = {"p": kind, "pairs": {"k%d" % i: k for i, k in enumerate(kids)}} if kind in ("Label", "UntypedLabel") else {"p": kind, "values": kids}
+        if t.chance(0.5):
+            sp = {"p": "Categorize", "q": {"f": "s", "kind": "lambda"}, "value": coll}
+        else:
+            sp = {"p": "SparselyBin", "binWidth": 1.0, "origin": 0.0, "q": {"f": "x", "kind": "lambda"}, "value": coll, "nanflow": None}
+        if t.chance(0.3):
+            sp = {"p": "Select", "q": {"f": "b", "kind": "lambda"}, "cut": sp}
+        d = rng.fork("data")
+        n = d.randint(3, 8)
+        crit = specmod.critical_values(sp)
+        recs = [specmod.gen_record(d, crit, {"no_none": True}) for _ in range(n)]
+        for r in recs:
+            r["b"] = True
+            r["x"] = float(d.pick([-2.0, -1.0, 0.0, 0.5, 1.0, 2.5, 3.0, 7.0]))
+        ws = [d.pick(specmod.POS_WEIGHTS) for _ in recs]
+        nodes = [nd["id"] for nd in specmod.nodes(sp) if nd["f"] is not None and len(nd["path"]) >= 1]
+        steps = [{"op": "stream", "faults": []}]
+        for pos in range(n):
+            for fld in ("x", "y"):
+                steps.append({"op": "stream", "faults": [], "missing": [[pos, fld]]})
+            for nd in nodes:
+                for mode in ("raise", "badtype"):
+                    steps.append({"op": "stream", "faults": [[pos, nd, mode]]})
+        f = rng.fork("faults")
+        for _ in range(6):
+            steps.append({"op": "stream", "faults": [], "missing": [[f.randrange(n), "y"] for _ in range(f.randint(2, 3))]})
+        return {"spec": sp, "records": [specmod.enc_record(r) for r in recs], "weights": ws, "steps": steps, "fanout": True}
 
     def generate(self, rng, tier, profile):
+        if profile == "new-bin-collection":
+            return self._gen_collection(rng, tier)
         big = tier == "thorough"
         opts = specmod.merge_opts(prims=specmod.LEAVES + specmod.SINGLE, depth=5 if big else 4, max_nodes=16,
                                   qkinds=[("lambda", 5), ("named", 1), ("def", 1), ("str", 2)], str_plain=True)
@@ -89,6 +139,7 @@ class C12(Scenario):
                     faults.setdefault(pos, {})[nd] = mode
             survivors = []
             ok_fills = 0
+            tainted = False
             missing = {}
             for pos, fld in st.get("missing", []):
                 missing.setdefault(pos, []).append(fld)
@@ -101,6 +152,7 @@ class C12(Scenario):
                     readers = [nd for nd in specmod.nodes(sp) if nd["f"] in missing[pos] or (nd["f"] in ("xy", "xyc") and set(missing[pos]) & set(nd["f"]))]
                 before = observe.observe(h)
                 keys_before = self._sparse_keys(h)
+                fresh_bin = self._routed_to_new_bin(h, rec) if case.get("fanout") else None
                 gate.STATE.armed = dict(armed)
                 gate.STATE.fired = []
                 o = call(h.fill, rec, ws[pos])
@@ -135,6 +187,14 @@ class C12(Scenario):
                 if not fired:
                     raise self.violation(exc_site(o.exc)[0], "fill", "exception:%s" % type(o.exc).__name__,
                                          "a fill without a fired fault raised %s" % o.describe(), si, {"pos": pos})
+                if case.get("fanout") and not fresh_bin:
+                    # the failing record went to a bin that exists: its elder children have counted it (outside the guarantee);
+                    # nothing more can be demanded of this stream
+                    tainted = True
+                    w.bump("probe_fanout_existing_bin")
+                    continue
+                if case.get("fanout"):
+                    w.bump("probe_fanout_new_bin")
                 units += 1
                 for nd, mode in fired[:1]:
                     if mode != "missing":
@@ -154,6 +214,9 @@ class C12(Scenario):
                                          "fill of record %d raised (%s at node %d) but changed the tree at %s (%s.%s)" % (
                                              pos, mode, nd, d[0], d[1], d[2]), si,
                                          {"before": before, "after": after, "placement": st["faults"]})
+            if tainted:
+                w.record_step(st, {0: observe.obs_hash(observe.observe(h))})
+                continue
             m = model.model_doc(sp, survivors)
             final = observe.observe(h)
             d = observe.doc_diff(final, m, tol_for(w.records, len(w.records) + 4))
@@ -164,6 +227,29 @@ class C12(Scenario):
             w.record_step(st, {0: observe.obs_hash(final)})
         R["nontrivial"] = nontrivial
         R["units"] = units
+
+    def _routed_to_new_bin(self, h, rec):
+        """True if the (outermost) sparse container of the tree has no bin yet for this record"""
+        node = h
+        for _ in range(4):
+            nm = getattr(node, "name", "")
+            if nm == "Select":
+                node = node.cut
+                continue
+            try:
+                if nm == "Categorize":
+                    k = rec.get("s")
+                    k = "NaN" if (k is None or k != k) else str(k)
+                    return k not in node.bins
+                if nm == "SparselyBin":
+                    x = rec.get("x")
+                    if x is None or x != x:
+                        return False
+                    return node.bin(x) not in node.bins
+            except Exception:
+                return False
+            return False
+        return False
 
     def _sparse_keys(self, h):
         out = []
